@@ -5,7 +5,9 @@
   C01 / C02 theorems instantiated at byte-row cells; this file proves the bit-level facts.
 -/
 import HealSparse.Model.WideMask
+import HealSparse.Model.Api
 import HealSparse.Lemmas.WideMask
+import HealSparse.Lemmas.ApiReject
 namespace HS
 namespace C13
 
@@ -137,6 +139,17 @@ theorem valid_iff_nonempty (row : List Nat) (n : Nat) (hr : IsRow row n) :
   have h := WideMask.any_ne_zero_eq row hr.2
   rw [hr.1] at h
   exact h
+
+/-- **bit positions at or above the width are rejected** by set_bits_pix / clear_bits_pix,
+    whatever the pixels — and a rejected call returns no new map, so the map is unchanged. -/
+theorem reject_big_bit (m : MapObj) (pix : List Nat) (bits : List Nat) (clear : Bool)
+    (h : ∃ b ∈ bits, b ≥ m.maxbits) (r : MapObj) : apiSetBits m pix bits clear ≠ .ok r := by
+  exact apiSetBits_rejects_big m pix bits clear h r
+
+/-- the same for bit-list operators (`m |= [bits]` …) -/
+theorem reject_big_bit_operator (m : MapObj) (op : String) (bits : List Nat)
+    (h : ∃ b ∈ bits, b ≥ m.maxbits) (r : State Val) : apiScalarOp m op (.bits bits) ≠ .ok r := by
+  exact apiScalarOp_rejects_big m op bits h r
 
 /-- non-vacuity / byte-boundary witnesses -/
 example : bitvalsToPacked [0, 7, 8, 16] 24 = [129, 1, 1] := by decide
